@@ -130,7 +130,7 @@ ALLOWED_NODES = (
 )
 TEMPLATE_NAMES = {"Record", "RECORD_VERSION", "_RECORD_VERSION", "_utcnow", "_zip_longest", "__self", "__cls",
                   "classmethod", "setattr", "dict", "args", "kwargs", "k", "v", "f", "values", "None", "_generated",
-                  "_desc", "_field_types", "__slots__", "_unpack", "__init__"}
+                  "_desc", "_field_types", "__slots__", "_unpack", "__init__", "_setattr", "_dict"}
 TEMPLATE_ATTRS = {"type", "default", "_unpack", "_generated", "_version", "__slots__", "_field_types", "get",
                   "_desc"}
 
@@ -389,6 +389,25 @@ def type_name_cases(tier):
     return cases
 
 
+def template_name_cases(tier):
+    """Every identifier the class template itself uses, as type name and as field name, with and without a Python
+    keyword among the fields (the keyword switches the generated code to its *args/**kwargs variant)."""
+    ids = ["Record", "RECORD_VERSION", "_RECORD_VERSION", "setattr", "dict", "classmethod", "args", "kwargs", "k", "v", "f",
+           "values", "type", "default", "get", "zip_longest", "utcnow", "object", "super", "len", "str", "int", "tuple",
+           "list", "isinstance", "None", "self", "cls"]
+    cases = []
+    for i in ids:
+        for kw in (False, True):
+            extra = [("string", "from")] if kw else []
+            for ch in ("constructor", "stream"):
+                cases.append({"name": i, "fields": [("string", "a")] + extra, "channel": ch, "role": "template-name"})
+                cases.append({"name": "x/" + i, "fields": [("varint", "a")] + extra, "channel": ch, "role": "template-name"})
+                if i != "a":
+                    cases.append({"name": "t/ok", "fields": [("string", i), ("varint", "a")] + extra, "channel": ch,
+                                  "role": "template-field"})
+    return cases
+
+
 def exhaustive_cases(tier):
     cases = []
     for role in ("type-name", "field-name", "field-type"):
@@ -421,7 +440,7 @@ PAYLOADS = [
     "_dt", "varint_type", "flow.record.fieldtypes.string", "net.hostname", "net.email", "credential.username",
     "net.ip.ipaddress", "net.ipv4.address", "net.ipv4.subnet", "net.tcp.port", "net.ipv4.SubnetList",
 ]
-TEMPLATE_IDS = ["Record", "RECORD_VERSION", "args", "kwargs", "k", "v", "f", "values", "classmethod", "setattr", "dict",
+TEMPLATE_IDS = ["setattr", "dict", "classmethod", "Record", "RECORD_VERSION", "args", "kwargs", "k", "v", "f", "values", "classmethod", "setattr", "dict",
                 "type", "default", "get", "self", "cls", "None", "True", "class", "from", "import", "lambda", "def",
                 "return", "RECORD/VERSION", "Record/x", "x/Record", "zip_longest", "utcnow"]
 
@@ -476,5 +495,6 @@ def parts(tier):
     return [
         Part("short-strings", check_definition, cases=exhaustive_cases, exhaustive=(tier == "thorough")),
         Part("derived-type-names", check_definition, cases=type_name_cases, exhaustive=True),
+        Part("template-identifiers", check_definition, cases=template_name_cases, exhaustive=True),
         Part("generated", check_definition, strategy=generated_case(), examples=(250, 4000)),
     ]
